@@ -135,13 +135,43 @@ class Exec:
         k = s['k']
         if k == 'Compound':
             for x in s['s']:
-                self._stmt(f, x, ev, depth)
+                if self._stmt(f, x, ev, depth) == 'break':
+                    return 'break'
             return
         if k == 'If':
             c = ev.ev(s['c']).value() if val(s['c']) is None else val(s['c'])
             if c is None:
                 raise AnalysisBroken('A64-IMMHELP: condition %s at %s is not decided by the immediate class' % (show(s['c']), loc(s, f)))
-            self._stmt(f, s['t'] if c else s.get('e'), ev, depth)
+            return self._stmt(f, s['t'] if c else s.get('e'), ev, depth)
+        if k == 'Break':
+            return 'break'
+        if k == 'Switch':
+            cn = strip_all(s['c'])
+            while cn['k'] == 'Cast' and type_info(cn.get('ty')) is None:
+                cn = strip_all(cn['e'])
+            c = ev.ev(cn).value()
+            if c is None:
+                raise AnalysisBroken('A64: switch on %s at %s is not decided' % (show(s['c'])[:60], loc(s, f)))
+            stmts = s['b']['s'] if s['b']['k'] == 'Compound' else [s['b']]
+
+            def labels(st):
+                out = []
+                while st['k'] in ('Case', 'Default'):
+                    out.append(st)
+                    st = st['sub']
+                return out
+            matched = any(val(x_['lhs']) == c for st in stmts for x_ in labels(st) if x_['k'] == 'Case')
+            active = False
+            for st in stmts:
+                x_ = st
+                for lab in labels(st):
+                    if (lab['k'] == 'Case' and val(lab['lhs']) == c) or (lab['k'] == 'Default' and not matched):
+                        active = True
+                while x_['k'] in ('Case', 'Default'):
+                    x_ = x_['sub']
+                if active:
+                    if self._stmt(f, x_, ev, depth) == 'break':
+                        return
             return
         if k in ('Decl', 'Return', 'Null'):
             ev._exec(s, [])
